@@ -42,6 +42,7 @@ var replacements = map[string]string{
 	"(github.com/cosmos/cosmos-sdk/x/authz.MsgExec).GetMessages":    "ExecGetMessages",
 	"(github.com/cosmos/cosmos-sdk/x/authz.Grant).GetAuthorization": "GrantGetAuthorization",
 	"github.com/cosmos/cosmos-sdk/codec/types.MsgTypeURL":           "MsgTypeURL",
+	"(*github.com/cosmos/cosmos-sdk/codec/types.Any).GetCachedValue": "AnyGetCachedValue",
 
 	// Ethereum transaction model (RLP decoding, hash, signature recovery)
 	"(github.com/EscanBE/evermint/v12/x/evm/types.MsgEthereumTx).AsTransaction": "MsgAsTransaction",
@@ -49,6 +50,7 @@ var replacements = map[string]string{
 	"(*github.com/ethereum/go-ethereum/core/types.Transaction).Hash":             "TxHash",
 	"(*github.com/ethereum/go-ethereum/core/types.Transaction).UnmarshalBinary":  "TxUnmarshalBinary",
 	"github.com/ethereum/go-ethereum/core/types.recoverPlain":                    "RecoverPlain",
+	"github.com/EscanBE/evermint/v12/x/vauth/utils.VerifySignature":              "VauthVerifySignature",
 	"(github.com/ethereum/go-ethereum/core/types.londonSigner).Hash":             "SignerHash",
 	"(github.com/ethereum/go-ethereum/core/types.eip2930Signer).Hash":            "SignerHash",
 	"(github.com/ethereum/go-ethereum/core/types.EIP155Signer).Hash":             "SignerHash",
